@@ -51,9 +51,10 @@ def worker(ck: Check, job):
     name = '%s:thr=%s' % (code, thr)
     res = {}
     bad = []
+    cov = []
     for label, txt in (('A', TA), ('B', TB), ('ASB', TASB)):
         ex = text_executor(ck, assm)
-        res[label] = merged_occs(text_find(ex, L, txt, thr))
+        res[label] = merged_occs(text_find(ex, L, txt, thr), cov)
         ck.absorb(ex)
         bad += [('panic (%s): %s %s at %s' % (label, p.kind, p.msg, p.where), c) for p, c in zip(ex.panics, conds_of(ex.panics))]
     OA, OB, OX = res['A'], res['B'], res['ASB']
@@ -93,7 +94,7 @@ def worker(ck: Check, job):
         return {'key': {'lang': code, 'kind': 'context'}, 'reproduced': differs, 'replay': rep,
                 'what': '%s thr=%s: rewrite(%r) = %r but rewrite(A) S rewrite(B) = %r' % (
                     code, thr, tx, rx.get('ok'), (ra.get('ok') or '') + sep + (rb.get('ok') or ''))}
-    ck.prove_none(name, assm, bad, on_cex, lambda m, c: None)
+    ck.prove_none(name, assm, guard(cov, bad), on_cex, lambda m, c: None)
     ck.cover(name + ':numbers-on-both-sides', assm + [z3.UGE(nA, 1), z3.UGE(nB, 1)], lambda m: {'lang': code, 'text': concrete_text(TASB, m)[0]})
     ck.bounds['%s_words_per_part' % code] = k
     ck.per_lang[code] = {'words_used': len(reps)}
